@@ -17,6 +17,7 @@ class LoopC:
         self.hints = []           # proved-then-assumed at the end of an iteration, before the invariant
         self.uses_end = []
         self.uses_init = []
+        self.uses_begin = []
         self.env_driven = False   # termination is not claimed (consumer / worker loops)
         self.class_invariant = False   # the class invariant of self is part of the loop invariant
 
@@ -43,6 +44,12 @@ class LoopC:
     def use_at_init(self, expr):
         """lemma / definition instance assumed just before the loop is entered"""
         self.uses_init.append(expr)
+        return self
+
+    def use_at_begin(self, expr):
+        """lemma / definition instance assumed at the start of every iteration, after the target is bound and the begin-ghosts ran
+        (lemma_inst(...) or unfold(...) only) - for facts an exceptional exit of the body needs"""
+        self.uses_begin.append(expr)
         return self
 
     def use_at_end(self, expr):
@@ -115,6 +122,13 @@ class FuncC:
         `elem` is the element sort of the result"""
         lc = self.loops.setdefault("c%d" % k, LoopC("c%d" % k))
         lc.elem_sort = elem
+        return lc
+
+    def dict_comprehension(self, k, key, value):
+        """contract of the k-th dict comprehension (in source order) whose value expression has effects: executed as the loop
+        _dacc<k> = {}; for <target> in <iter>: _dacc<k>[<key>] = <value>  with index _id<k> / sequence _seqd<k>"""
+        lc = self.loops.setdefault("d%d" % k, LoopC("d%d" % k))
+        lc.key_sort, lc.elem_sort = key, value
         return lc
 
     def ghost_exit(self, stmt):
